@@ -255,6 +255,8 @@ EXPORT char *_stpncpy_s_chk(char *restrict dest, rsize_t dmax,
                         dest++;
                     }
                 }
+#else
+                *dest = '\0';
 #endif
                 *errp = RCNEGATE(EOK);
                 return orig_dest;
